@@ -188,7 +188,7 @@ def ch2_result_tells_enqueued(ctx, rep, arms=("BlockOnFull", "DropOldest", "Drop
                       "path [%s] returns Err although an enqueue attempt succeeded" % p.describe())
         else:
             rep.bad(R, "result-shape:%s" % short(b.path), ctx.where(b), "path [%s] returns %s" % (p.describe(), term_str(ret)))
-    rep.floor(R, "feasible paths judged", n, 6)
+    rep.floor(R, "feasible paths judged", n, 2 * len(arms))
 
 
 def ch3_drop_accounting(ctx, rep, arms=("BlockOnFull", "DropOldest", "DropLatest")):
@@ -248,7 +248,7 @@ def ch3_drop_accounting(ctx, rep, arms=("BlockOnFull", "DropOldest", "DropLatest
         rep.check(good, R, "dropped-counted-exactly-once:" + key, ctx.where(b, drops[0].bb) if drops else ctx.where(b),
                   "path [%s]: %d discarded action(s), %d action_dropped call(s) on them" % (p.describe(), len(want), len(drops)),
                   "path [%s]: %d action(s) discarded (%s) but %d action_dropped call(s) (%s)" % (p.describe(), len(want), [w[0] for w in want], len(drops), [term_str(d.args[1]) if len(d.args) > 1 else "?" for d in drops]))
-    rep.floor(R, "feasible paths judged", n, 6)
+    rep.floor(R, "feasible paths judged", n, 2 * len(arms))
     # the dispatch queue is built with Some(metrics)
     from rules.queue import _dispatch_channel_site
     cb, hits, t = _dispatch_channel_site(ctx)
